@@ -43,6 +43,7 @@ THEOREMS = [
     "Optyx.Props.ClosurePathTie.unaryGradient_path",
     "Optyx.Props.ClosurePathTie.compileGradient_path",
     "Optyx.Props.ClosurePathTie.compileHessian_path",
+    "Optyx.Props.ClosurePathTie.compileJacobian_path",
     "Optyx.Props.PinsC03.anchors",
     "Optyx.Props.C03.jacRow_sound_of_source_equations",
     "Optyx.Props.JacRowTie.jacRow_step",
